@@ -60,7 +60,9 @@ def verify(wt, name):
         demo_with_change=dict(rc=rc2, passed=ok2, failed=failed2),
         demo_without_change=dict(rc=rc3, passed=ok3, failed=failed3),
     )
-    good = rc1 == 0 and failed1 == 0 and ok1 >= 150 and rc2 != 0 and failed2 >= 1 and rc3 == 0 and failed3 == 0 and ok3 >= 1
+    aborted2 = "SIGABRT" in out2 or "signal: 6" in out2 or "SIGSEGV" in out2  # a memory-safety abort kills the test process: no result line
+    verdict["demo_with_change"]["aborted"] = aborted2
+    good = rc1 == 0 and failed1 == 0 and ok1 >= 150 and rc2 != 0 and (failed2 >= 1 or aborted2) and rc3 == 0 and failed3 == 0 and ok3 >= 1
     meta["confirmed_by_me"] = verdict
     meta["confirmed"] = good
     meta["what_i_ran"] = "in the scratch worktree: cargo test --offline --no-fail-fast with the change (demo moved aside); cargo test --test seed_demo with the change (must fail); git checkout -- src; same (must pass); git apply patch.diff"
